@@ -126,8 +126,12 @@ def _export_all_modes(fn, inputs, dp, d, kw=None):
     r1 = to_onnx(fn, inputs, enable_double_precision=dp, return_mode="file", output_path=ps, **kw)
     r2 = to_onnx(fn, inputs, enable_double_precision=dp, return_mode="file", output_path=pw, export_mode="web", **kw)
     out["paths"] = (r1, r2)
-    out["file_standard"] = _load(ps)
-    out["file_web"] = _load(pw)
+    for key, path in (("file_standard", ps), ("file_web", pw)):
+        try:
+            out[key] = _load(path)
+        except Exception as exc:  # noqa: BLE001
+            out[key] = None
+            out.setdefault("reload_errors", {})[key] = f"{type(exc).__name__}: {str(exc)[:200]}"
     out["listing_std"] = sorted(os.listdir(os.path.dirname(ps)))
     out["listing_web"] = sorted(os.listdir(os.path.dirname(pw)))
     out["web_raw"] = onnx.load(pw, load_external_data=False)
@@ -137,7 +141,11 @@ def _export_all_modes(fn, inputs, dp, d, kw=None):
 
 def _compare_modes(out, fam, pid, rec, feed) -> None:
     ref = _normalise(out["proto"])
+    for mode, err in (out.get("reload_errors") or {}).items():
+        rec["violations"].append({"family": fam, "program": pid, "kind": "reload_fails", "cls": mode, "text": f"{pid}: the {mode} export cannot be reloaded (dir: {out['listing_std'] if mode == 'file_standard' else out['listing_web']}): {err}"})
     for mode in ("ir", "file_standard", "file_web"):
+        if out[mode] is None:
+            continue
         got = _normalise(out[mode])
         rec["evals"] += 1
         if got != ref:
@@ -170,6 +178,8 @@ def _compare_modes(out, fam, pid, rec, feed) -> None:
     try:
         base = ortrun.run_model(out["proto"], feed)
         for mode in ("ir", "file_standard", "file_web"):
+            if out[mode] is None:
+                continue
             got = ortrun.run_model(out[mode], feed)
             if len(got) != len(base) or any(x.tobytes() != y.tobytes() for x, y in zip(base, got)):
                 rec["violations"].append({"family": fam, "program": pid, "kind": "mode_outputs_differ", "cls": mode, "text": f"{pid}: ORT outputs of mode {mode} differ from 'proto'"})
@@ -205,9 +215,11 @@ def run_case(case: dict[str, Any], tier: str, seed: int) -> dict[str, Any]:
                 kw["input_params"] = prog.params
             out = _export_all_modes(prog.make_fn(), prog.specs(), prog.dp, d, kw)
             ref = _normalise(out["proto"])
+            for mode, err in (out.get("reload_errors") or {}).items():
+                rec["violations"].append({"family": prog.family, "program": prog.pid, "kind": "reload_fails", "cls": mode, "text": f"{prog.pid}: the {mode} export cannot be reloaded: {err}"})
             for mode in ("ir", "file_standard", "file_web"):
                 rec["evals"] += 1
-                if _normalise(out[mode]) != ref:
+                if out[mode] is not None and _normalise(out[mode]) != ref:
                     rec["violations"].append({"family": prog.family, "program": prog.pid, "kind": "mode_mismatch", "cls": mode, "text": f"{prog.pid}: return mode {mode} is not the same model as 'proto'"})
             rec["nontrivial"].append(case["key"])
             rec["sample"] = {"program": prog.pid, "modes": ["proto", "ir", "file_standard", "file_web"]}
